@@ -37,6 +37,19 @@ def rand_signature(rng, maxtypes=4, maxdepth=4, fds=False):
     return s[:255] if wire.signature_ok(s[:255]) else b"s"
 
 
+def misnested_signature(rng):
+    """A signature whose brackets are balanced in count but closed in the wrong order (or a valid near miss)."""
+    inner = rng.choice([b"ii", b"i", b"su", b"ay", b"v"])
+    key = bytes([rng.choice(b"sioyu")])
+    forms = [b"a{" + key + b"(" + inner + b"})", b"(a{" + key + b"i)}", b"a{" + key + b"(" + inner + b")}",
+             b"(a{" + key + b"i})", b"a{" + key + b"a(" + inner + b"})", b"(" + inner + b"a{" + key + b"(" + inner + b"})",
+             b"a{" + key + b"((" + inner + b")})", b"((a{" + key + b"i)})", b"a{" + key + b"a{" + key + b"(i}})"]
+    s = rng.choice(forms)
+    if rng.random() < 0.3:
+        s = rng.choice([b"", b"i", b"a"]) + s + rng.choice([b"", b"i", b"s"])
+    return s
+
+
 def deep_signature(rng):
     """Signatures near the nesting limits."""
     k = rng.choice(["a32", "a33", "s32", "s33", "mix", "a32s32", "runs", "dict"])
